@@ -23,8 +23,13 @@ import (
 	"time"
 )
 
-// Root of the verification tree.
-const Root = "/verif"
+// Root of the verification tree (the directory of the check script).
+var Root = func() string {
+	if r := os.Getenv("VERIF_ROOT"); r != "" {
+		return r
+	}
+	return "/verif"
+}()
 
 // Phase is a list of N independent cases. Run(i, r) must be a pure function of
 // (tier, seed, i) apart from the system under observation.
